@@ -51,6 +51,21 @@ func genC08(t *rapid.T) kit.History {
 				store = "kids2"
 			}
 		}
+		if rapid.IntRange(0, 9).Draw(t, l+"_resave") == 0 {
+			// an update that stores exactly what is stored already (a client re-saving an unchanged entity): it is an
+			// update all the same
+			for _, id := range c08Universe.IDs {
+				if e, ok := m.Ents["things"][id]; ok {
+					spec := &kit.EntSpec{Name: e.Name, Roles: append([]string(nil), e.Roles...), Note: e.Note, TagV: e.TagV}
+					for _, cc := range m.Cfg.Children {
+						if x, has := e.Kid[cc.Name]; has {
+							spec.Extra = x
+						}
+					}
+					return kit.Op{Kind: "update", Store: "things", ID: id, Spec: spec}
+				}
+			}
+		}
 		return kit.GenEntOpM(t, l, store, c08Universe, m)
 	})
 }
@@ -134,7 +149,12 @@ func runC08(h kit.History) kit.Result {
 	}
 	defer w.Close()
 	rec := &kit.Recorder{Committed: &atomic.Bool{}}
-	w.InstallRecorders(rec, nil)
+	// in a quarter of the cases (by history length) only the parent store has listeners and constraints
+	parentOnly := len(h.Txs)%4 == 3
+	w.InstallRecordersOn(rec, nil, !parentOnly)
+	if parentOnly {
+		res.Classes = append(res.Classes, "listeners-on-the-parent-store-only")
+	}
 	// asynchronous listener registrations
 	w.Stores["things"].AddListener(func(e boltz.Entity) {
 		rec.Add(kit.Event{Store: "things", Style: "listener-async", Type: "?", ID: e.GetId()})
@@ -150,6 +170,9 @@ func runC08(h kit.History) kit.Result {
 			rec.Add(kit.Event{Store: "things", Style: "listener-async-typed", Type: at.name, ID: e.GetId()})
 		}, at.t)
 		for _, cc := range h.Cfg.Children {
+			if parentOnly {
+				break
+			}
 			name := cc.Name
 			w.Kids[name].AddEntityIdListener(func(id string) {
 				rec.Add(kit.Event{Store: name, Style: "listener-async-typed", Type: at.name, ID: id})
@@ -157,6 +180,9 @@ func runC08(h kit.History) kit.Result {
 		}
 	}
 	for _, cc := range h.Cfg.Children {
+		if parentOnly {
+			break
+		}
 		name := cc.Name
 		w.Kids[name].AddListener(func(e boltz.Entity) {
 			rec.Add(kit.Event{Store: name, Style: "listener-async", Type: "?", ID: e.GetId()})
@@ -167,6 +193,15 @@ func runC08(h kit.History) kit.Result {
 	multiOp, rollbackAfterWork, otherRoute := false, false, false
 	for i, tx := range h.Txs {
 		want, commits, ignoreKid := expectedEvents(m, tx)
+		if parentOnly {
+			var onParent []kit.Event
+			for _, e := range want {
+				if e.Store == "things" {
+					onParent = append(onParent, e)
+				}
+			}
+			want = onParent
+		}
 		var commitActions, earlyActions, derivedActions atomic.Int32
 		rec.Committed.Store(false)
 		rec.Drain()
@@ -198,7 +233,7 @@ func runC08(h kit.History) kit.Result {
 		// commit actions run on their own goroutine: wait for the latch (10 s ceiling)
 		if out.Committed {
 			latch := time.Now().Add(10 * time.Second)
-			for (commitActions.Load() == 0 || earlyActions.Load() == 0 || derivedActions.Load() == 0) && time.Now().Before(latch) {
+			for (commitActions.Load() == 0 || earlyActions.Load() == 0 && !tx.UsesNilCtx() || derivedActions.Load() == 0) && time.Now().Before(latch) {
 				time.Sleep(50 * time.Microsecond)
 			}
 		}
@@ -290,6 +325,9 @@ func runC08(h kit.History) kit.Result {
 		if n := derivedActions.Load(); !tx.Batch && n != wantActions || tx.Batch && (out.Committed && n < 1 || !out.Committed && n != 0) {
 			res.Err = fmt.Errorf("%s: the commit action registered through a context derived with UpdateContext ran %d times (committed=%v)\nhistory:\n%s", label, n, out.Committed, h)
 			return res
+		}
+		if tx.UsesNilCtx() {
+			earlyActions.Add(wantActions) // no context existed before the transaction: nothing was registered on it
 		}
 		if n := earlyActions.Load(); n != wantActions {
 			res.Err = fmt.Errorf("%s: the commit action registered before the transaction was opened ran %d times, want %d\nhistory:\n%s", label, n, wantActions, h)
